@@ -18,7 +18,8 @@ instances, lazy reference caches, _refs); ConfigCentral_Trace judges every claus
 Carve-outs: after a failed reload() the contents of the manager are unspecified until a load succeeds
 (only the exception, the invoked configurables and the recursion guard are judged); which sections a
 FAILED get_default left cached depends on the listing order and is only bounded (LooseRen); values /
-inheritance are C43's business (sections here have no inherit); references are typed and by name.
+inheritance are C43's business (inheriting sections state all their keys: inherit can only fail here); references are
+typed and by name; no section inherits from its own name.
 """
 import json
 import os
@@ -31,9 +32,9 @@ from pylib.common import mktmp, rng, seed, use_repo
 TYPES = ["t1", "t2", "configsection"]
 
 
-def B(name, kind="obj", ty="t1", beh="ok", refs=(), want="t2", lazy=(), lwant="t2", dflt=False, load=(0, 0)):
+def B(name, kind="obj", ty="t1", beh="ok", refs=(), want="t2", lazy=(), lwant="t2", dflt=False, load=(0, 0), inh=()):
     return dict(name=name, kind=kind, ty="configsection" if kind == "loader" else ty, beh=beh, refs=list(refs), want=want,
-                lazy=list(lazy), lwant=lwant, dflt=dflt, load=list(load))
+                lazy=list(lazy), lwant=lwant, dflt=dflt, load=list(load), inh=list(inh))
 
 
 # The model-checked universes.  Source numbers are 1-based positions in lib.
@@ -84,7 +85,8 @@ UNIVERSES = {
     # nested autoloads and precedence: p is defined before, inside and after the includes
     "nested": dict(
         lib=[
-            [B("p", ty="t1"), B("autoload-x", kind="loader", load=(2, 3)), B("q", ty="t2", refs=["p"], want="t1")],
+            [B("p", ty="t1"), B("autoload-x", kind="loader", load=(2, 3)), B("q", ty="t2", refs=["p"], want="t1"),
+             B("k", ty="t1", inh=["p"]), B("m", ty="t2", inh=["k", "zz"]), B("w", ty="t2", refs=["m"], want="t2")],
             [B("p", ty="t2"), B("autoload-y", kind="loader", load=(3, 0)), B("q", ty="t1")],
             [B("r", ty="t1", lazy=["q"], lwant="t2", dflt=True), B("p", ty="t1", beh="raise")],
             [B("autoload-x", kind="loader", load=(3, 3))],
@@ -93,7 +95,7 @@ UNIVERSES = {
         auto=["autoload-x", "autoload-y", "autoload-z"],
         init=[1],
         addable=[3, 4, 5],
-        names=["p", "q", "r", "autoload-y"],
+        names=["p", "q", "r", "k", "m", "w", "zz"],
         types=TYPES,
     ),
 }
@@ -154,12 +156,13 @@ class World:
             pass
 
         def callable_for(s, b):
-            single = len(b["refs"]) == 1 and (s + len(b["name"])) % 2 == 0
-            lsingle = len(b["lazy"]) == 1 and (s + len(b["name"])) % 2 == 1
+            # a section that inherits states every key itself (own keys override inherited ones)
+            single = len(b["refs"]) == 1 and (s + len(b["name"])) % 2 == 0 and not b["inh"]
+            lsingle = len(b["lazy"]) == 1 and (s + len(b["name"])) % 2 == 1 and not b["inh"]
             types = {}
-            if b["refs"]:
+            if b["refs"] or b["inh"]:
                 types["r"] = ("ref:" if single else "refs:") + b["want"]
-            if b["lazy"]:
+            if b["lazy"] or b["inh"]:
                 types["lz"] = ("lazy_ref:" if lsingle else "lazy_refs:") + b["lwant"]
 
             @configurable(types=types, typename=b["ty"])
@@ -199,12 +202,15 @@ class World:
                     conf["class"] = callable_for(s, b)
                 if b["kind"] == "inhonly":
                     conf["inherit-only"] = True
-                if b["refs"] and b["kind"] in ("obj", "loader"):
+                own = bool(b["inh"]) and b["kind"] in ("obj", "loader")
+                if b["inh"]:
+                    conf["inherit"] = list(b["inh"])
+                if (b["refs"] or own) and b["kind"] in ("obj", "loader"):
                     conf["r"] = " ".join(b["refs"])
-                if b["lazy"] and b["kind"] in ("obj", "loader"):
+                if (b["lazy"] or own) and b["kind"] in ("obj", "loader"):
                     conf["lz"] = " ".join(b["lazy"])
-                if b["dflt"]:
-                    conf["default"] = True
+                if b["dflt"] or own:
+                    conf["default"] = bool(b["dflt"])
                 sec = basics.AutoConfigSection(conf)
                 self.secid[id(sec)] = s
                 self.keep.append(sec)
@@ -267,6 +273,8 @@ class World:
                 out["tok"] = self.m.collapse_named_section(a["n"]).instantiate().verif_tok
             elif op == "objget":
                 out["tok"] = getattr(self.m.objects, a["t"])[a["n"]].verif_tok
+            elif op == "contains":
+                out["flag"] = a["n"] in getattr(self.m.objects, a["t"])
             elif op == "objkeys":
                 out["keys"] = sorted(getattr(self.m.objects, a["t"]).keys())
             elif op == "getdefault":
@@ -296,6 +304,7 @@ class World:
             acts += [dict(op="collapse", n=n), dict(op="instantiate", n=n), dict(op="instantiate", n=n)]
             for t in TYPES[:2]:
                 acts.append(dict(op="objget", t=t, n=n))
+            acts.append(dict(op="contains", t=TYPES[len(n) % 2], n=n))
         for t in TYPES:
             acts += [dict(op="objkeys", t=t), dict(op="getdefault", t=t)]
         for n, cc in self.m.rendered_sections.items():
@@ -357,6 +366,13 @@ def random_universe(r_):
         k = r_.choice([0, 0, 1, 1, 2, 3])
         return [r_.choice(pool) for _ in range(k)] if pool else [], want
 
+    def inherits(n):
+        # a defined section mostly, now and then a name no source defines; never the section's own name
+        if r_.random() > 0.25:
+            return []
+        pool = [x for x in names if x != n] * 3 + ["zz"]
+        return [r_.choice(pool) for _ in range(r_.choice([1, 1, 2]))]
+
     def binding(n, s):
         wild = 0.08 if s == 1 else 0.25
         if n in autos:
@@ -370,14 +386,14 @@ def random_universe(r_):
             return B(n, kind="loader", refs=refs[:1], want=want, load=load)
         x = r_.random()
         if x < wild / 2:
-            return B(n, kind="noclass", dflt=r_.random() < 0.5)
+            return B(n, kind="noclass", dflt=r_.random() < 0.5)     # (a class-less heir would take its class from C43's rules)
         if x < wild:
-            return B(n, kind="inhonly", ty=home[n], dflt=r_.random() < 0.5)
+            return B(n, kind="inhonly", ty=home[n], dflt=r_.random() < 0.5, inh=inherits(n))
         refs, want = targets(n, wild)
         lazy, lwant = targets(n, wild + 0.15)
         return B(n, ty=home[n] if r_.random() > wild else r_.choice(["t1", "t2"]),
                  beh=r_.choice(["ok"] * 8 + ["raise", "none"]), refs=refs, want=want, lazy=lazy[:2], lwant=lwant,
-                 dflt=r_.random() < 0.15)
+                 dflt=r_.random() < 0.15, inh=inherits(n))
 
     lib = []
     for s in range(1, nsrc + 1):
@@ -441,7 +457,8 @@ def run(ck):
                "by TLC simulation of ConfigCentral_Sim and by a seeded random generator over random libraries; non-trivial = "
                "distinct history in which a configurable was invoked and a call failed or the sources were (re)loaded")
     ck.assumptions = [
-        "sections are AutoConfigSection dicts without inherit (values/inheritance: C43); references are by name and typed",
+        "sections are AutoConfigSection dicts; a collapsible section that inherits states all its keys itself and never names "
+        "itself, class-less sections do not inherit (inherited values: C43), so inheriting can only fail (missing target, cycle); references are by name and typed",
         "configurables are deterministic given the environment switch; a loader returns a new mapping of the same sections",
         "after a failed reload() the manager's contents are unspecified until a load succeeds",
         "projection reads sections_lookup, rendered_sections, CollapsedConfig._instance, LazySectionRef.cached_config, _refs",
